@@ -173,6 +173,13 @@ class ModelWriter(object):
         self.removed_fields.append(name)
         self.mi.ever_removed.add(name)
 
+    def preview(self, clear=False):
+        """(docs, field_names, schema) this transaction would commit."""
+        base = [] if clear else self.live()
+        if self.removed_fields:
+            base = [strip_fields(d, self.removed_fields) for d in base]
+        return (base + self.adds, list(self.field_names), self.schema)
+
     def commit(self, clear=False):
         mi = self.mi
         if clear:
